@@ -60,8 +60,11 @@ type Op struct {
 	// Dly (sub-operation of par): the task arrives late, after this many
 	// scheduling points of its own.
 	Dly int `json:"dly,omitempty"`
-	Adm  []Op   `json:"adm,omitempty"`
-	Qs   []Op   `json:"qs,omitempty"`
+	// Ref (admin sub-operation of par): the query of the phase against whose
+	// progress the arrival is timed.
+	Ref int  `json:"ref,omitempty"`
+	Adm []Op `json:"adm,omitempty"`
+	Qs  []Op `json:"qs,omitempty"`
 }
 
 // Scenario is one case.
@@ -232,6 +235,8 @@ func Gen(t *rapid.T, tier string) any {
 		maxOps = 60
 	}
 	allNames := append(append([]string{}, exactNames...), extraNames...)
+	// tab is the generator's picture of the live table (see trackOp).
+	tab := append([]Entry{}, sc.Table...)
 	for i, n := 0, rapid.IntRange(1, maxOps).Draw(t, "n_ops"); i < n; i++ {
 		var op Op
 		switch k := rapid.IntRange(0, 99).Draw(t, "kind"); {
@@ -253,6 +258,7 @@ func Gen(t *rapid.T, tier string) any {
 			for _, e := range ch[:len(ch)-1] {
 				e := e
 				sc.Ops = append(sc.Ops, Op{K: "add", E: &e})
+				tab = trackOp(tab, Op{K: "add", E: &e})
 			}
 			e := ch[len(ch)-1]
 			op = Op{K: "add", E: &e}
@@ -271,13 +277,17 @@ func Gen(t *rapid.T, tier string) any {
 			}
 		case k < 98:
 			// (An aimed phase is preceded by the add calls of its chain.)
-			ps := genPar(t, allNames)
+			ps := genPar(t, allNames, tab)
+			for _, p := range ps[:len(ps)-1] {
+				tab = trackOp(tab, p)
+			}
 			sc.Ops = append(sc.Ops, ps[:len(ps)-1]...)
 			op = ps[len(ps)-1]
 		default:
 			op = Op{K: "list"}
 		}
 		sc.Ops = append(sc.Ops, op)
+		tab = trackOp(tab, op)
 	}
 	return sc
 }
@@ -1056,7 +1066,7 @@ var _ = sort.Strings
 var Prop = &kernel.Property{
 	ID:    "C06",
 	Level: "exploration",
-	Rule: "seeded histories (rapid): a rewrite table of 1-10 entries over a tiny alphabet (9 exact names up to 4 labels, 5 wildcard patterns with 1-4 labels after '*.', answers: 3 IPv4 / 2 IPv6 values, the 'A' / 'AAAA' exceptions, the pattern itself, CNAMEs to table names and to names outside the table; explicit CNAME chains of 1-5 hops, some hops through wildcards, ending in a cycle to any member / a self reference / addresses / an exception / an outside name / nothing; duplicates; random order) loaded as configuration and then changed live through the real /control/rewrite/add, /update, /delete handlers; ops = queries A/AAAA/TXT/HTTPS over 6 transports for table names, wildcard-covered names and outside names (some in mixed case), some with an upstream fault on the resolution leg, interleaved with the table changes; DNS cache on in a third of the cases; " +
+	Rule: "seeded histories (rapid): a rewrite table of 1-10 entries over a tiny alphabet (9 exact names up to 4 labels, 5 wildcard patterns with 1-4 labels after '*.', answers: 3 IPv4 / 2 IPv6 values, the 'A' / 'AAAA' exceptions, the pattern itself, CNAMEs to table names and to names outside the table; explicit CNAME chains of 1-5 hops, some hops through wildcards, ending in a cycle to any member / a self reference / addresses / an exception / an outside name / nothing; duplicates; random order) loaded as configuration and then changed live through the real /control/rewrite/add, /update, /delete handlers; ops = queries A/AAAA/TXT/HTTPS over 6 transports for table names, wildcard-covered names and outside names (some in mixed case), some with an upstream fault on the resolution leg, interleaved with the table changes; DNS cache on in a third of the cases; op 'par' (mode D, ~7 % of the ops): 1-3 admin operations (add / delete / update through the real handlers), 1-4 queries and sometimes a listing run as concurrent tasks under the seeded cooperative scheduler (interleaved at lock boundaries, at the simulated upstream and, with the verbose log on, at every line a task writes to the process log), the admin operations arriving at a drawn point of a query's progress; in two thirds of these phases the queries ask names that resolve through CNAME entries and the admin operations hit entries on such a path with replacements further along it; " +
 		"non-trivial = at least one executed query hit the table (reference outcome other than not_matched) AND at least one live table change or upstream fault happened; distinct = distinct scenario digests",
 	Gen: Gen,
 	New: func() any { return &Scenario{} },
@@ -1066,13 +1076,15 @@ var Prop = &kernel.Property{
 		return c.Probes["matched_query"] > 0 && f["live_table_change"]+f["upstream_error"]+f["upstream_timeout"]+f["upstream_servfail"]+f["upstream_slow"] > 0
 	},
 	Real: []string{"internal/filtering (DNSFilter.CheckHost, processRewrites, findRewrites, rewrite table, /control/rewrite/{list,add,update,delete} handlers)", "internal/dnsforward (request pipeline: filterDNSRequest, CNAME leg with question restoration, getCNAMEWithIPs)", "dnsproxy request path (handleDNSRequest, Resolve, cache, respond*)", "internal/client.Storage"},
-	Stub: []string{"upstream resolver (logs every question; answers derive from the name asked; seeded faults)", "client sockets (fake conns / response writers)", "query log and statistics (recorders)", "wall clock (synctest); the termination watchdog reads the kernel's monotonic clock and process CPU time"},
+	Stub: []string{"upstream resolver (logs every question; answers derive from the name asked; seeded faults)", "client sockets (fake conns / response writers)", "query log and statistics (recorders)", "wall clock (synctest); the termination watchdog reads the kernel's monotonic clock and process CPU time", "process log sink (concurrent phases: verbose level, every line written by a task is a scheduling point; at most one task at a time is held up there)", "goroutine scheduling in concurrent phases (seeded cooperative scheduler on a copy of the tree whose lock operations go through the verifyield seam)"},
 	Assumptions: []string{
 		"the reference resolution (ref.go) is the reading of AGHTechDoc.md §Rewrites + the statement: CNAME over address entries, exact over wildcard, longest wildcard first, pass-through exceptions, matched-without-value => empty NOERROR",
 		"shapes the documentation leaves open are only held to S1 (termination) and S2 (no address outside the table for the resolved name and family): several CNAME targets at one pattern, one wildcard pattern with CNAME and address values, an exception and a value of the same family at one pattern, an entry of the other family shadowing a less specific entry of the asked family, a pass-through exception met at a later hop of a CNAME chain, CNAME cycles",
 		"a wildcard '*.s' covers every name ending in '.s' (any depth), not 's' itself",
 		"a synthesised answer need not list every value of the deciding pattern (any non-empty subset is accepted)",
 		"with the DNS cache on, a name resolved upstream earlier may be served without a new exchange",
+		"concurrent phase: the rewrite admin operations are atomic (the table listed afterwards is the result of one of their serial orders, with the status codes of that order), and a query or listing that overlaps them sees one of the table versions those orders pass through: its reply must satisfy the whole sequential oracle under at least one version; a reply that is a listed finding under one version counts as that finding",
+		"concurrent phase: with the cache on, an overlapped query may be served what another query of the same phase fetched; upstream faults there are limited to error and SERVFAIL (the clock stands still); non-termination of a phase = 10 s wall + 5 s CPU",
 		"non-termination is detected by a 2 s wall+CPU budget per query (60 s simulated); the worker process then ends and the driver takes the class from the replay of the running scenario (no shrinking for that class)",
 	},
 	FaultKinds: []string{"upstream_error", "upstream_timeout", "upstream_servfail", "upstream_slow", "live_table_change", "concurrent_table_change"},
